@@ -13,7 +13,16 @@
    * a float literal is the quotient / product of two exact integers ([nlit]): over R its decimal value,
      over binary64 the correctly rounded quotient = the literal Python parses (|m| < 2^53, 10^k <= 10^22);
    * `a ** k` with a literal non-negative int k is k-fold multiplication ([ipow]); other powers are [npow];
-   * bool used as a number is [b2n]. *)
+   * bool used as a number is [b2n];
+   * `while c: body` is [while_fuel fuel c body state] with an explicit iteration budget `fuel` (an int expression over
+     the arguments supplied to the translator, NOT part of the source); a function containing a `while` (or calling
+     one that does) returns the pair (value, ok) where ok is the conjunction of the loops' flags: ok = true iff every
+     loop stopped because its condition became false.  A result with ok = false has no meaning (budget exhausted);
+   * `a[:n]` is [zslice_to a n] (Python: a negative n counts from the end); a slice is a VALUE (a copy): programs that
+     store through a slice view are rejected by the translator;
+   * a call of a helper listed as "opaque" is the application of a function PARAMETER of the generated definition:
+     the helper is assumed to be a pure function of its arguments that returns a fresh array (the link theorems
+     quantify over every such function satisfying their stated hypotheses). *)
 From Coq Require Import List ZArith Bool.
 From UV Require Import Num.
 Import ListNotations.
@@ -49,6 +58,10 @@ Definition znth {A : Type} (d : A) (l : list A) (i : Z) : A :=
 Definition zset {A : Type} (l : list A) (i : Z) (v : A) : list A :=
   let j := wrap_index (zlen l) i in
   if (j <? 0)%Z then l else set_nth_nat l (Z.to_nat j) v.
+
+(* `a[:n]`: the first n elements; a negative n means len(a) + n (and nothing if that is negative too) *)
+Definition zslice_to {A : Type} (l : list A) (n : Z) : list A :=
+  firstn (Z.to_nat (if (n <? 0)%Z then (zlen l + n)%Z else n)) l.
 
 Section Prim.
 Context (N : Num).
